@@ -59,7 +59,7 @@ Theorem C05_hinv_initial : hinv hinv_ex_msg [] [].
 Proof. exact hinv_initial. Qed.
 
 (* ------------------------------------------------------------------ over op lists *)
-From CV Require Import Core.BuildOps Core.BuildInv Core.HeapOps Core.HeapValid.
+From CV Require Import Core.BuildOps Core.BuildInv Core.HeapOps Core.HeapCopy Core.HeapSteps Core.HeapValid.
 
 (* hinv implies the strict validity predicate (worklist terminates within its fuel; all regions
    collected are table regions, pairwise equal or disjoint) *)
